@@ -5,7 +5,7 @@ SymmetricTensor.__new__, KroneckerDelta.eval / _eval_power."""
 import z3
 from pyvc import contract as C
 from pyvc.contract import Contract, register
-from pyvc.values import (Struct, Sym, PList, PDict, PyFunc, ClassRef, term, wrap, zand,
+from pyvc.values import (Struct, Sym, PList, PDict, Inst, PyFunc, ClassRef, term, wrap, zand,
                          zor, znot, zeq, is_enum, enum_eq, Unsupported)
 from pyvc.vc import RaiseEx
 from spec.idx import (IdxSort, idx_space, idx_spin, new_index,
@@ -20,6 +20,7 @@ ASSUMPTIONS = [
     "sympy: (i - j).is_zero is True iff i and j are the same Dummy, None otherwise; fuzzy_not(None) is None",
     "CPython hash(): an arbitrary integer function of the object",
     "z3 string order str.< is the code point lexicographic order Python uses for str comparison",
+    "Expr.set_sym_tensors / set_antisym_tensors / make_real: representation invariant over the stored sets (subsets of {f, V, d} / {x}), real flag on/off; Expr._apply_tensor_braket_sym is an assumed callee that applies the stored sets to every term (its per-object part is under contract), Term.make_real and sympy.Add are opaque",
     "add_bra_ket_sym / _apply_tensor_braket_sym: tensor classes AntiSymmetricTensor, SymmetricTensor, Amplitude (and NonSymmetricTensor, KroneckerDelta as objects without bra-ket symmetry); the subclass relation is read from the class statements of the real source; symbol, index tuples, exponent and assumptions are opaque; precondition: a tensor name is not listed in sym_tensors and antisym_tensors at once; sympy.Pow(b, e) builds the power of b",
 ]
 
@@ -648,3 +649,122 @@ class ApplyTensorBraketSym(Contract):
         return out + [("the-same-tensor-with-the-same-exponent", ok),
                       ("gets-the-listed-symmetry",
                        z3.And(z3.Or(c1, c2), z3.IntVal(got) == z3.If(c1, 1, -1)) if ok and isinstance(got, int) else False)]
+
+
+# --- Expr.set_sym_tensors / set_antisym_tensors / make_real: the stored assumptions are applied -------
+# Representation invariant J of an expression: the tensors have been canonicalised with exactly the
+# stored sets (ghost: the sets at the last call of _apply_tensor_braket_sym), and a real expression
+# lists the Fock matrix and the ERI as symmetric.  Every setter re-establishes J.
+EK = "adcgen.expr_container:Expr"
+_SYM_CHOICES = [[], ["f"], ["V"], ["f", "V"], ["d"], ["d", "f"], ["d", "V"], ["d", "f", "V"]]
+
+
+class _ApplyBraketGhost(Contract):
+    key = EK + "._apply_tensor_braket_sym"
+    props = []
+    assumed = True
+    note = "applies the stored sets to every term (Obj._apply_tensor_braket_sym, contract above): ghost records the sets"
+
+    def apply(self, vc, a):
+        me = a["self"]
+        vc.ghost["_applied"] = (frozenset(me.attrs["_sym_tensors"].items), frozenset(me.attrs["_antisym_tensors"].items))
+        return me
+
+
+register(_ApplyBraketGhost)
+
+
+class _ExprSetter(Contract):
+    props = ["C06"]
+
+    def _new_expr(self, vc):
+        from pyvc.values import PSet
+        real = vc.choose(2, "real") == 1
+        sym = list(_SYM_CHOICES[vc.choose(len(_SYM_CHOICES), "sym_tensors")])
+        anti = [["x"], []][vc.choose(2, "antisym_tensors")]
+        C.EXTERNALS["adcgen.tensor_names:tensor_names"] = Struct("TensorNames", fock="f", eri="V")
+        C.EXTERNALS["sympy.Add"] = lambda ip, a_, k_: Struct("Opaque", what="sum of the processed terms")
+        C.STRUCT_ATTR[("SympyOfExpr", "is_number")] = lambda ip, o: o.f["number"]
+        C.STRUCT_METHODS[("TermOfExpr", "make_real")] = lambda ip, o, a_, k_: Struct("Opaque", what="real term")
+        me = Inst(EK, {"_sym_tensors": PSet(sym), "_antisym_tensors": PSet(anti), "_real": real,
+                       "_expr": Struct("SympyOfExpr", number=vc.choose(2, "is_number") == 1)})
+        C.CLASS_ATTR[(EK, "x")] = None
+        vc.ghost["_applied"] = (frozenset(sym), frozenset(anti))
+        vc.ghost["_before"] = (frozenset(sym), frozenset(anti), real)
+        # precondition J
+        if real and not {"f", "V"} <= set(sym):
+            from pyvc.vc import PathEnd
+            raise PathEnd()
+        return me
+
+    def _j(self, vc, me):
+        sym, anti = frozenset(me.attrs["_sym_tensors"].items), frozenset(me.attrs["_antisym_tensors"].items)
+        return [("the-tensors-are-canonicalised-with-the-stored-sets", vc.ghost["_applied"] == (sym, anti)),
+                ("a-real-expression-lists-the-fock-matrix-and-the-eri-as-symmetric",
+                 (not me.attrs["_real"]) or {"f", "V"} <= sym)]
+
+
+# Expr.real / Expr.sympy are one line properties (return self._real / self._expr): interpreted inline;
+# Expr.terms is opaque (one abstract term)
+C.INLINE.add(EK + ".real")
+C.INLINE.add(EK + ".sympy")
+
+
+class _ExprTerms(Contract):
+    key = EK + ".terms"
+    props = []
+    assumed = True
+    note = "the terms of the expression (opaque)"
+
+    def apply(self, vc, a):
+        return (Struct("TermOfExpr"),)
+
+
+register(_ExprTerms)
+
+
+@register
+class ExprMakeReal(_ExprSetter):
+    key = EK + ".make_real"
+
+    def setup(self, vc):
+        me = self._new_expr(vc)
+        return {"self": me}
+
+    def post(self, vc, a, result):
+        me = a["self"]
+        return self._j(vc, me) + [("the-expression-is-real-afterwards", me.attrs["_real"] is True),
+                                  ("the-expression-itself-is-returned", result is me)]
+
+
+@register
+class ExprSetSymTensors(_ExprSetter):
+    key = EK + ".set_sym_tensors"
+
+    def setup(self, vc):
+        me = self._new_expr(vc)
+        req = list(_SYM_CHOICES[vc.choose(len(_SYM_CHOICES), "requested")])
+        vc.ghost["_requested"] = req
+        return {"self": me, "sym_tensors": PList(req)}
+
+    def post(self, vc, a, result):
+        me = a["self"]
+        want = set(vc.ghost["_requested"]) | ({"f", "V"} if me.attrs["_real"] else set())
+        return self._j(vc, me) + [("the-stored-set-is-the-requested-one-(plus-f-and-V-if-real)",
+                                   set(me.attrs["_sym_tensors"].items) == want)]
+
+
+@register
+class ExprSetAntisymTensors(_ExprSetter):
+    key = EK + ".set_antisym_tensors"
+
+    def setup(self, vc):
+        me = self._new_expr(vc)
+        req = [["x"], [], ["y"]][vc.choose(3, "requested")]
+        vc.ghost["_requested"] = req
+        return {"self": me, "antisym_tensors": PList(req)}
+
+    def post(self, vc, a, result):
+        me = a["self"]
+        return self._j(vc, me) + [("the-stored-set-is-the-requested-one",
+                                   set(me.attrs["_antisym_tensors"].items) == set(vc.ghost["_requested"]))]
